@@ -219,15 +219,31 @@ def state_accesses(P, G):
 def deps_of(fn, expr_nodes, encl_locals=()):
     """parameters/free variables that the given expressions depend on through local def-use chains (flow-insensitive, data + control)"""
     defs = {}
+    # names tested by the conditions an assignment is nested in (control dependence)
+    ctl = {}
+
+    def mark(node, tests):
+        for ch in ast.iter_child_nodes(node):
+            if isinstance(ch, (ast.FunctionDef, ast.AsyncFunctionDef, ast.Lambda, ast.ClassDef)):
+                continue
+            t2 = tests
+            if isinstance(node, (ast.If, ast.While)) and ch is not node.test:
+                t2 = tests | {x.id for x in ast.walk(node.test) if isinstance(x, ast.Name)}
+            elif isinstance(node, ast.IfExp) and ch is not node.test:
+                t2 = tests | {x.id for x in ast.walk(node.test) if isinstance(x, ast.Name)}
+            ctl[id(ch)] = t2
+            mark(ch, t2)
+
+    mark(fn, frozenset())
     for n in ast.walk(fn):
         if isinstance(n, ast.Assign):
-            src = {x.id for x in ast.walk(n.value) if isinstance(x, ast.Name)}
+            src = {x.id for x in ast.walk(n.value) if isinstance(x, ast.Name)} | set(ctl.get(id(n), ()))
             for t in n.targets:
                 for x in ast.walk(t):
                     if isinstance(x, ast.Name) and isinstance(x.ctx, ast.Store):
                         defs.setdefault(x.id, set()).update(src)
         elif isinstance(n, ast.AugAssign) and isinstance(n.target, ast.Name):
-            defs.setdefault(n.target.id, set()).update({x.id for x in ast.walk(n.value) if isinstance(x, ast.Name)} | {n.target.id})
+            defs.setdefault(n.target.id, set()).update({x.id for x in ast.walk(n.value) if isinstance(x, ast.Name)} | {n.target.id} | set(ctl.get(id(n), ())))
         elif isinstance(n, ast.For):
             src = {x.id for x in ast.walk(n.iter) if isinstance(x, ast.Name)}
             for x in ast.walk(n.target):
@@ -249,6 +265,71 @@ def deps_of(fn, expr_nodes, encl_locals=()):
         params.add(fn.args.kwarg.arg)
     roots = {nm for nm in seen if nm in params or (nm not in defs)}
     return roots, params
+
+
+def deps_paths(fn, expr_nodes):
+    """access paths (root name, attr, ...) rooted at parameters or free names that the expressions depend on, through local
+    def-use chains (flow-insensitive; data and control).  `ny, nx = q0.shape` makes ny depend on q0.shape, not on q0."""
+    defs = {}
+    ctl = {}
+
+    def mark(node, tests):
+        for ch in ast.iter_child_nodes(node):
+            if isinstance(ch, (ast.FunctionDef, ast.AsyncFunctionDef, ast.Lambda, ast.ClassDef)):
+                continue
+            t2 = tests
+            if isinstance(node, (ast.If, ast.While, ast.IfExp)) and ch is not node.test:
+                t2 = tests | frozenset(_paths(node.test))
+            ctl[id(ch)] = t2
+            mark(ch, t2)
+
+    mark(fn, frozenset())
+    for n in ast.walk(fn):
+        if isinstance(n, ast.Assign):
+            src = set(_paths(n.value)) | set(ctl.get(id(n), ()))
+            for t in n.targets:
+                for x in ast.walk(t):
+                    if isinstance(x, ast.Name) and isinstance(x.ctx, ast.Store):
+                        defs.setdefault(x.id, set()).update(src)
+        elif isinstance(n, ast.AugAssign) and isinstance(n.target, ast.Name):
+            defs.setdefault(n.target.id, set()).update(set(_paths(n.value)) | {(n.target.id,)} | set(ctl.get(id(n), ())))
+        elif isinstance(n, ast.For):
+            src = set(_paths(n.iter))
+            for x in ast.walk(n.target):
+                if isinstance(x, ast.Name):
+                    defs.setdefault(x.id, set()).update(src)
+    params = {a.arg for a in fn.args.posonlyargs + fn.args.args + fn.args.kwonlyargs}
+    if fn.args.vararg:
+        params.add(fn.args.vararg.arg)
+    if fn.args.kwarg:
+        params.add(fn.args.kwarg.arg)
+    seen, todo, roots = set(), [], set()
+    for e in expr_nodes:
+        todo.extend(_paths(e))
+    while todo:
+        p = todo.pop()
+        if p in seen:
+            continue
+        seen.add(p)
+        r = p[0]
+        if r in params or r not in defs:
+            roots.add(p)
+            continue
+        for q in defs[r]:
+            # an attribute of a local that is itself a plain path keeps the attribute; otherwise the whole source is needed
+            todo.append(q + p[1:] if len(p) > 1 and q[0] not in defs else q)
+    return roots, params
+
+
+def covered_by_key(p, key_paths):
+    for k in key_paths:
+        if k[0] != p[0]:
+            continue
+        if p[: len(k)] == k:
+            return True  # the key holds the object itself, or an object the used part belongs to
+        if k[: len(p)] == p and len(k) == len(p) + 1 and k[-1] in LOSSLESS_ATTRS:
+            return True  # the key holds an identifying attribute of the object used
+    return False
 
 
 def memo_obligations(P, G):
@@ -280,14 +361,42 @@ def memo_obligations(P, G):
             site = "src/%s.py::%s::store into %s" % (mod.name.replace(".", "/"), fn.name, base.id)
             vdeps, params = deps_of(fn, [n.value])
             kdeps, _ = deps_of(fn, [t.slice])
+            # the memoised object may be written to after it was stored or fetched (buf = memo[key] = zeros(...); buf[...] = q0):
+            # what it then holds depends on everything written into it, on this call and on earlier ones
+            aliases = {x.id for tt in n.targets if isinstance(tt, ast.Name) for x in [tt]}
+            for m in ast.walk(fn):
+                if isinstance(m, ast.Assign) and len(m.targets) == 1 and isinstance(m.targets[0], ast.Name):
+                    v = m.value
+                    fetch = (isinstance(v, ast.Subscript) and isinstance(v.value, ast.Name) and v.value.id == base.id) or (
+                        isinstance(v, ast.Call) and isinstance(v.func, ast.Attribute) and v.func.attr in ("get", "setdefault") and isinstance(v.func.value, ast.Name) and v.func.value.id == base.id)
+                    if fetch:
+                        aliases.add(m.targets[0].id)
+            written = []
+            for m in ast.walk(fn):
+                if isinstance(m, ast.Assign):
+                    for tt in m.targets:
+                        if isinstance(tt, ast.Subscript) and isinstance(tt.value, ast.Name) and tt.value.id in aliases:
+                            written.append(m.value)
+                elif isinstance(m, ast.AugAssign):
+                    tt = m.target
+                    if (isinstance(tt, ast.Name) and tt.id in aliases) or (isinstance(tt, ast.Subscript) and isinstance(tt.value, ast.Name) and tt.value.id in aliases):
+                        written.append(m.value)
+            if written:
+                wdeps, _ = deps_of(fn, written)
+                vdeps = vdeps | wdeps
             ignore = set(dir(builtins)) | set(mod.imports) | set(mod.functions) | set(mod.classes) | {base.id}
             if is_closure:
                 ignore |= {x for x in outer if x not in locs}  # the enclosing scope's own constants (one memo per enclosing call)
             missing = sorted(d for d in vdeps - kdeps - ignore if d in params or (mod.name, d) in state or d in locs)
+            if not missing:
+                # by access path: a key built from q0.shape does not determine the contents of q0
+                vp, _ = deps_paths(fn, [n.value] + written)
+                kp, _ = deps_paths(fn, [t.slice])
+                missing = sorted(".".join(p) for p in vp if p[0] not in ignore and (p[0] in params or (mod.name, p[0]) in state) and not covered_by_key(p, kp))
             # settings read through module attributes
             vattr = {dotted_name(x) for x in ast.walk(n.value) if isinstance(x, ast.Attribute) and dotted_name(x)}
             obs.append(req_ob("R-MEMO", site, "the memoised value depends only on what its key depends on", not missing,
-                              detail=None if not missing else "value depends on %s, key on %s" % (sorted(vdeps - ignore), sorted(kdeps - ignore)), key={"state": base.id}))
+                              detail=None if not missing else "not determined by the key: %s (value depends on %s, key on %s)" % (missing, sorted(vdeps - ignore), sorted(kdeps - ignore)), key={"state": base.id}))
     return obs
 
 
@@ -359,7 +468,8 @@ def thread_flow_obligations(P, G):
     return obs
 
 
-LOSSLESS_ATTRS = {"char", "str", "name", "descr", "shape", "dtype"}  # an attribute that identifies (or is part of hashing) the whole object it is read from
+EXECUTION_KEYWORDS = {"threads", "num_threads", "planner_effort", "flags", "timeout"}  # keywords that steer execution, not values
+LOSSLESS_ATTRS = {"char", "str", "name", "descr"}  # an attribute that identifies the whole object it is read from (a dtype's code)
 LOSSY_ATTRS = {"kind", "itemsize", "ndim", "size", "nbytes", "alignment", "real", "imag", "T", "flags"}
 
 
@@ -454,6 +564,21 @@ def instance_memo_obligations(P, mod, cls, site):
             if isinstance(n, ast.Attribute) and isinstance(n.value, ast.Name) and n.value.id == "self" and n.attr not in by_name:
                 reads.add(n.attr)
         bad = sorted(a for a in reads if a not in consts and a not in memos)
+        # a per-instance constant may steer how the transform is executed (thread count, planner flags, a lock), not what it
+        # computes: the singleton is created once, so a constant that reaches a value (a dtype, a factor) makes a solve depend
+        # on which solve created the manager
+        parents = {}
+        for n in ast.walk(fn):
+            for ch in ast.iter_child_nodes(n):
+                parents[ch] = n
+        for n in ast.walk(fn):
+            if isinstance(n, ast.Attribute) and isinstance(n.value, ast.Name) and n.value.id == "self" and n.attr in consts and n.attr not in by_name and isinstance(n.ctx, ast.Load):
+                p = parents.get(n)
+                ok_use = (isinstance(p, ast.keyword) and p.arg in EXECUTION_KEYWORDS) or isinstance(p, (ast.withitem, ast.Compare, ast.JoinedStr, ast.FormattedValue)) or (
+                    isinstance(p, ast.Call) and (dotted_name(p.func) or "").split(".")[0] in ("logger", "logging")) or (
+                    isinstance(p, ast.Attribute) and p.attr in ("acquire", "release", "exists", "open"))
+                if not ok_use:
+                    bad.append("%s (used as %s at line %d)" % (n.attr, ("keyword %s" % p.arg) if isinstance(p, ast.keyword) else type(p).__name__, n.lineno))
         obs.append(req_ob("R-NOSTATE", msite, "the transform reads no instance state other than per-instance constants and completely keyed memos (which manager instance serves a call, and what it served before, cannot influence a value)", not bad,
                           detail="reads %s" % ", ".join("self." + a for a in bad) if bad else None))
         # keyed stores into the memo attributes
@@ -677,7 +802,42 @@ from interp import GenList, PyList, Unknown, has_unknown
 import props_wiring as pw
 
 
-def _single_stub(log):
+def _ideal_source_stub(P):
+    """ideal_source(...) as the value 'the ideal source for these bound arguments' (bound through the callee's own signature)"""
+    mod = P.module("bldfm.utils")
+    fn = P.function("bldfm.utils", "ideal_source")
+
+    def stub(I, args, kwargs, node):
+        try:
+            bound = I.bind(mod, fn, list(args), dict(kwargs))
+        except AnalysisError:
+            return Unknown("ideal_source with arguments that cannot be bound")
+        return Opaque("ideal_source", {"bound": bound})
+
+    return stub
+
+
+def _same_source_as_single(cfg, flux):
+    """is this the source run_bldfm_single builds for itself when it is handed none (S-WIRE: nxy = (nx, ny), domain =
+    (xmax, ymax), src_loc and shape from config.solver)?  -> True | False | None"""
+    b = flux.attrs.get("bound") if isinstance(flux, Opaque) else None
+    if not isinstance(b, dict):
+        return None
+    dom, sol = cfg.attrs["domain"].attrs, cfg.attrs["solver"].attrs
+    want = {"nxy": Tup([dom["nx"], dom["ny"]]), "domain": Tup([dom["xmax"], dom["ymax"]]), "src_loc": sol["src_loc"], "shape": sol["surface_flux_shape"]}
+    import props_wiring as pw
+
+    for k, w in want.items():
+        if k not in b:
+            return None
+        if has_unknown(b[k]):
+            return None
+        if not pw.same_value(b[k], w):
+            return False
+    return set(b) <= set(want) or None
+
+
+def _single_stub(log, cfg=None):
     def stub(I, args, kwargs, node):
         names = ["config", "tower", "met_index", "surface_flux", "cache"]
         b = dict(zip(names, args))
@@ -689,7 +849,16 @@ def _single_stub(log):
         t = b["tower"]
         tn = t.attrs["name"] if isinstance(t, Opaque) and "name" in t.attrs else alg.sym("?tower")
         flux = b["surface_flux"]
-        fx = flux if isinstance(flux, Expr) else alg.sym("no_flux")
+        if flux is None:
+            fx = alg.sym("no_flux")
+        elif isinstance(flux, Expr):
+            fx = flux
+        else:
+            same = _same_source_as_single(b["config"], flux) if isinstance(b.get("config"), Opaque) else None
+            if same is None:
+                return Unknown("a single run with a surface flux the driver built itself (%r)" % (flux,))
+            # the source single would build for itself, or definitely another one
+            fx = alg.sym("no_flux") if same else alg.sym("another source than the configured one")
         c = b["cache"]
         cx = alg.sym("cache:%s" % (c.name if isinstance(c, Opaque) else repr(c)))
         mi = b["met_index"] if isinstance(b["met_index"], Expr) else alg.sym("?index")
@@ -767,40 +936,42 @@ def driver_obligations(P):
     obs = []
     nsteps = alg.sym("n_steps", pos=True, integer=True)
     site_ts = "src/bldfm/interface.py::run_bldfm_timeseries"
-    for use_cache in (False, True):
+    for use_cache, flux in ((False, alg.sym("user_flux")), (True, alg.sym("user_flux")), (False, None)):
         cfg = _driver_config(P, use_cache)
         tower = cfg.attrs["towers"].items[0]
-        flux = alg.sym("user_flux")
         log = []
-        res = CM.run_paths(P, "bldfm.interface", "run_bldfm_timeseries", [cfg, tower], {"surface_flux": flux}, stubs={"bldfm.interface.run_bldfm_single": _single_stub(log)})
+        res = CM.run_paths(P, "bldfm.interface", "run_bldfm_timeseries", [cfg, tower], {"surface_flux": flux}, stubs={"bldfm.interface.run_bldfm_single": _single_stub(log), "bldfm.utils.ideal_source": _ideal_source_stub(P)})
         rets = [r for r in res if r.kind == "return"]
         ok1 = len(res) == 1 and len(rets) == 1
-        obs.extend(step_state_obligations(res, site_ts, "timeseries, use_cache=%s" % use_cache))
-        obs.append(req_ob("R-SERIAL", site_ts, "one straight path (use_cache=%s)" % use_cache, ok1, detail=str([(r.kind, r.raise_desc, r.path) for r in res])[:300]))
+        fl_tag = "" if flux is not None else ", no flux supplied"
+        obs.extend(step_state_obligations(res, site_ts, "timeseries, use_cache=%s%s" % (use_cache, fl_tag)))
+        obs.append(req_ob("R-SERIAL", site_ts, "one straight path (use_cache=%s%s)" % (use_cache, fl_tag), ok1, detail=str([(r.kind, r.raise_desc, r.path) for r in res])[:300]))
         if ok1:
             cname = "None" if not use_cache else "bldfm.cache.GreensFunctionCache"
             ok, why = _unk(_expect_series(tower, nsteps, flux, cname), rets[0].value)
-            obs.append(req_ob("R-SERIAL", site_ts, "returns the single runs of this tower for met_index = 0..n_timesteps-1, in time order, with the supplied flux (use_cache=%s)" % use_cache, ok, detail=why, key={"driver": "timeseries"}))
+            obs.append(req_ob("R-SERIAL", site_ts, "returns the single runs of this tower for met_index = 0..n_timesteps-1, in time order, with %s (use_cache=%s)" % (
+                "the supplied flux" if flux is not None else "the source each single run builds for itself from the configuration when none is supplied", use_cache), ok, detail=why, key={"driver": "timeseries", "flux": flux is not None}))
             cfgs = [b["config"] is cfg and b["tower"] is tower for b, _, _, _ in log]
             obs.append(req_ob("R-SERIAL", site_ts, "every single run gets the driver's own configuration and tower", bool(cfgs) and all(cfgs)))
     # multitower
     site_mt = "src/bldfm/interface.py::run_bldfm_multitower"
-    cfg = _driver_config(P)
-    flux = alg.sym("user_flux")
-    log = []
-    res = CM.run_paths(P, "bldfm.interface", "run_bldfm_multitower", [cfg], {"surface_flux": flux}, stubs={"bldfm.interface.run_bldfm_single": _single_stub(log)})
-    rets = [r for r in res if r.kind == "return"]
-    ok1 = len(res) == 1 and len(rets) == 1 and isinstance(rets[0].value, Tup) and rets[0].value.kind == "dict"
-    obs.extend(step_state_obligations(res, site_mt, "multitower"))
-    obs.append(req_ob("R-SERIAL", site_mt, "returns a mapping", ok1))
-    towers = cfg.attrs["towers"].items
-    if ok1:
-        items = rets[0].value.items
-        okk = len(items) == len(towers) and all(pw.same_value(k, t.attrs["name"]) for (k, _), t in zip(items, towers))
-        obs.append(req_ob("R-SERIAL", site_mt, "results are keyed by tower name in configuration order", okk, detail=repr([k for k, _ in items])[:200]))
-        for (k, v), t in zip(items, towers):
-            ok, why = _unk(_expect_series(t, nsteps, flux, "None"), v)
-            obs.append(req_ob("R-SERIAL", site_mt, "each entry is the time series of its own tower", ok, detail=why, key={"driver": "multitower"}))
+    for flux in (alg.sym("user_flux"), None):
+        cfg = _driver_config(P)
+        log = []
+        res = CM.run_paths(P, "bldfm.interface", "run_bldfm_multitower", [cfg], {"surface_flux": flux}, stubs={"bldfm.interface.run_bldfm_single": _single_stub(log), "bldfm.utils.ideal_source": _ideal_source_stub(P)})
+        rets = [r for r in res if r.kind == "return"]
+        ok1 = len(res) == 1 and len(rets) == 1 and isinstance(rets[0].value, Tup) and rets[0].value.kind == "dict"
+        fl_tag = "" if flux is not None else " (no flux supplied)"
+        obs.extend(step_state_obligations(res, site_mt, "multitower" + fl_tag))
+        obs.append(req_ob("R-SERIAL", site_mt, "returns a mapping" + fl_tag, ok1))
+        towers = cfg.attrs["towers"].items
+        if ok1:
+            items = rets[0].value.items
+            okk = len(items) == len(towers) and all(pw.same_value(k, t.attrs["name"]) for (k, _), t in zip(items, towers))
+            obs.append(req_ob("R-SERIAL", site_mt, "results are keyed by tower name in configuration order" + fl_tag, okk, detail=repr([k for k, _ in items])[:200]))
+            for (k, v), t in zip(items, towers):
+                ok, why = _unk(_expect_series(t, nsteps, flux, "None"), v)
+                obs.append(req_ob("R-SERIAL", site_mt, "each entry is the time series of its own tower" + fl_tag, ok, detail=why, key={"driver": "multitower", "flux": flux is not None}))
     # parallel
     site_p = "src/bldfm/interface.py::run_bldfm_parallel"
     for strategy in ("towers", "time", "both"):
@@ -892,7 +1063,7 @@ def driver_obligations(P):
                 return Unknown("futures in completion order (%s)" % name)
             return stub
 
-        stubs = {"bldfm.interface.run_bldfm_single": _single_stub(log), "concurrent.futures.ProcessPoolExecutor": executor,
+        stubs = {"bldfm.interface.run_bldfm_single": _single_stub(log), "bldfm.utils.ideal_source": _ideal_source_stub(P), "concurrent.futures.ProcessPoolExecutor": executor,
                  "concurrent.futures.ThreadPoolExecutor": executor, "pool.map": pool_map, "pool.submit": submit, "future.result": future_result,
                  "concurrent.futures.as_completed": completion_order("as_completed"), "concurrent.futures.wait": completion_order("wait")}
         res = CM.run_paths(P, "bldfm.interface", "run_bldfm_parallel", [cfg], {"max_workers": alg.sym("workers", pos=True, integer=True), "parallel_over": strategy}, stubs=stubs)
